@@ -37,7 +37,7 @@ func init() {
 			"on such edges. A write outside such a region accumulates a NULL input (counts it, overwrites the running value with it, or converts it to 0). " +
 			"(W1) a new partition / peer group starts when ANY key differs: the window change detectors (key expressions + two rows -> (bool, error), comparing key by key with Type.Compare) answer true at the first key whose comparison is non-zero and false after the loop over all keys - ranking functions and RANGE frames take their ties from these boundaries.",
 		NotCovered: "the values the accumulators compute, window-function execution (WindowFunction.Compute and framing), buffers that evaluate children only through helpers (groupConcatBuffer), GROUP_CONCAT ordering, DISTINCT handling",
-		Technique:  "sibling agreement over all implementations of an interface method: SSA dominance of a nil test over every accumulator write (nil-guard engine)",
+		Technique:  "sibling agreement over all implementations of an interface method: SSA dominance of a nil test over every accumulator write (nil-guard engine); polarity reading (AST) of the window change detectors",
 		Run: func(c *Ctx) {
 			rels := []string{}
 			for _, pk := range c.P.Module {
